@@ -270,8 +270,15 @@ def parse_race_logs(prefix_dir, prefix_name):
 FRAME_RX = re.compile(r"^  (\S+)\(.*\)?$")
 
 
+# shared helpers whose own frame does not say which object is raced on: the caller is part of the identity
+HELPER_FRAMES = (r"internal/util\.\(\*PidLoop\)\.Loop$",)
+
+
 def innermost_repo_frame(section):
-    """First frame (innermost first) whose function lives in fan2go itself."""
+    """First frame (innermost first) whose function lives in fan2go itself; for a shared helper (util.PidLoop.Loop) the
+    calling fan2go frame is appended ("helper<caller"), so that a PID loop raced on through a curve and one raced on
+    through a control algorithm are different pairs."""
+    found = None
     for line in section.splitlines():
         m = re.match(r"^  ([^\s(]+(?:\([^)]*\))?[^\s(]*)\(", line)
         if not m:
@@ -280,8 +287,13 @@ def innermost_repo_frame(section):
         if "github.com/markusressel/fan2go/" in fn and "/internal/verif/" not in fn:
             fn = fn.replace("github.com/markusressel/fan2go/", "")
             fn = re.sub(r"\.func\d+(\.\d+)*$", ".func", fn)
+            if found is not None:
+                return found + "<" + fn
+            if any(re.search(h, fn) for h in HELPER_FRAMES):
+                found = fn
+                continue
             return fn
-    return "?"
+    return found or "?"
 
 
 def race_pair(block):
